@@ -308,6 +308,12 @@ def _loop_body_sensitive(loop: ast.AST) -> Optional[str]:
         if isinstance(s, ast.Break):
             return False
         if isinstance(s, ast.If):
+            # "the active child of X": at most one element of a legal configuration has a given parent, so taking the first match
+            # (assign + break) does not depend on the iteration order
+            if "_active_state_nodes" in norm(getattr(loop, "iter", loop)) and isinstance(s.test, ast.Compare) and len(s.test.ops) == 1 and \
+                    isinstance(s.test.ops[0], (ast.Eq, ast.Is)) and ".parent" in norm(s.test.left) + norm(s.test.comparators[0]) and not s.orelse and \
+                    all(isinstance(x, ast.Break) or ok_stmt(x) for x in s.body):
+                return True
             return not _has_effect_call(s.test) and all(ok_stmt(x) for x in s.body) and all(ok_stmt(x) for x in s.orelse)
         if isinstance(s, ast.AugAssign):
             return isinstance(s.op, (ast.BitOr, ast.Add, ast.BitAnd)) and isinstance(s.target, ast.Name)
